@@ -348,6 +348,30 @@ Select(st, s) ==
                  LET vals == ItemVals(st, w, s.items) IN
                  [i \in Idx(w.rows) |-> [v |-> vals[i], key |-> w.rows[i].key]]] }) ]
 
+\* select !{..}: `this.*` minus the named columns (each must resolve, as in select).  `this.*` is
+\* expanded by the resolver from its name table (see Group): the columns of input number p form a
+\* block with sort key p, a computed column at frame position i has sort key i, unnamed columns
+\* have no entry.
+Exclude(st, s) ==
+  LET sc == ExprsScope(st.frame, s.cols)
+      drop == UNION { Matches(st.frame, s.cols[m].q, s.cols[m].name) : m \in Idx(s.cols) }
+      oset == { i \in Idx(st.frame) : i \notin drop /\ st.frame[i].name # "" }
+      ipos(src) == IF \E p \in Idx(st.inputs) : st.inputs[p] = src
+                   THEN (CHOOSE p \in Idx(st.inputs) : st.inputs[p] = src) - 1 ELSE -1
+      okey(i) == IF st.frame[i].src # "" THEN ipos(st.frame[i].src) ELSE i
+      before(i, j) == okey(i) < okey(j) \/ (okey(i) = okey(j) /\ i < j)
+      keep == SortSeq(SetToSeq(oset), before)
+      tie == \/ \E i, j \in oset : st.frame[i].src = "" /\ st.frame[j].src # "" /\ okey(i) = okey(j)
+             \/ \E i \in oset : st.frame[i].src # "" /\ okey(i) < 0
+  IN
+  IF sc # "ok" THEN Bad(st, sc)
+  \* (SQL has no relation without columns: excluding everything is not judged)
+  ELSE IF st.grouped \/ tie \/ keep = <<>> \/ \E m \in Idx(s.cols) : s.cols[m].t # "col" THEN Unsup(st)
+  ELSE [ st EXCEPT
+      !.frame = [j \in Idx(keep) |-> st.frame[keep[j]]],
+      !.W = Lift(st, LAMBDA w : { [w EXCEPT !.rows =
+                 [i \in Idx(w.rows) |-> [v |-> [j \in Idx(keep) |-> w.rows[i].v[keep[j]]], key |-> w.rows[i].key]]] }) ]
+
 Derive(st, s) ==
   LET es == [m \in Idx(s.items) |-> s.items[m].e]
       sc == ExprsScope(st.frame, es)
@@ -652,6 +676,7 @@ ApplyStep(st, s0, dbs, schema) ==
   ELSE IF st.status # "ok" THEN st
   ELSE CASE s.op = "select"    -> Select(st, s)
          [] s.op = "derive"    -> Derive(st, s)
+         [] s.op = "exclude"   -> Exclude(st, s)
          [] s.op = "filter"    -> Filter(st, s)
          [] s.op = "sort"      -> Sort(st, s)
          [] s.op = "take"      -> Take(st, s)
